@@ -25,6 +25,7 @@ import (
 	"os"
 	"path"
 	"path/filepath"
+	"regexp"
 	"sort"
 	"strconv"
 	"strings"
@@ -941,7 +942,7 @@ func ExtractOTSDBPayload(rawJson []byte, tags *TagsHolder) ([]byte, float64, uin
 		}
 		return nil
 	}
-	rawJson = bytes.Replace(rawJson, []byte("NaN"), []byte("0"), -1)
+	rawJson = replaceBareNaN(rawJson)
 	err = jp.ObjectEach(rawJson, handler)
 	if err != nil {
 		log.Errorf("ExtractOTSDBPayload: failed to parse json %s, err=%v", rawJson, err)
@@ -1039,7 +1040,7 @@ func ExtractOTLPPayload(rawJson []byte, tags *TagsHolder) ([]byte, float64, uint
 		}
 		return nil
 	}
-	rawJson = bytes.Replace(rawJson, []byte("NaN"), []byte("0"), -1)
+	rawJson = replaceBareNaN(rawJson)
 	err = jp.ObjectEach(rawJson, handler)
 	if err != nil {
 		log.Errorf("ExtractOTLPPayload: failed to parse json %s, err=%v", rawJson, err)
@@ -1059,6 +1060,17 @@ func ExtractOTLPPayload(rawJson []byte, tags *TagsHolder) ([]byte, float64, uint
 	return nil, dpVal, 0, err
 }
 
+var bareNaN = regexp.MustCompile(`:\s*NaN\s*([,}])`)
+
+// NaN is not JSON; only a NaN standing where a value stands is replaced (never the letters
+// "NaN" inside a metric name or a tag)
+func replaceBareNaN(rawJson []byte) []byte {
+	if !bytes.Contains(rawJson, []byte("NaN")) {
+		return rawJson
+	}
+	return bareNaN.ReplaceAll(rawJson, []byte(":0$1"))
+}
+
 // extracts raw []byte from the read tags objects and returns it as []*tagsHolder
 // the returned []*tagsHolder is sorted by tagKey
 func extractTagsFromJson(tagsObj []byte, tags *TagsHolder) error {
@@ -1072,6 +1084,12 @@ func extractTagsFromJson(tagsObj []byte, tags *TagsHolder) error {
 		if err != nil {
 			log.Errorf("extractTagsFromJson: failed to parse key %v as string. value=%+v valueType=%+v, err=%v", key, value, valueType, err)
 			return err
+		}
+		if valueType == jp.String && bytes.IndexByte(value, '\\') != -1 {
+			// JSON escapes (\u00e9, \", \\) are part of the encoding, not of the tag value
+			if unescaped, err := jp.Unescape(value, nil); err == nil {
+				value = unescaped
+			}
 		}
 		tags.Insert(strKey, value, valueType)
 		return nil
